@@ -123,10 +123,11 @@ def load_lookup(R):
     R.plain_truthy.add("InvocationContext")
     R.contract("reference:FunctionReference._find_function", assumed=True,
                types={"module": TStr, "function_name": TStr, "version": TOpt(TStr), "partial_args": TObj(), "partial_kwargs": TObj()}, returns=MFT,
-               raises={"ModuleNotFoundError": [], "ValueError+": [], "AttributeError": []},
+               raises={"ModuleNotFoundError": [], "ValueError+": [], "AttributeError": [], "Exception+": []},
                ensures=["isinstance(result, MementoFunctionType)", "result.fn is not None and callable_obj(result.fn) and has_attr(result.fn, '__module__')",
                         "implies(version is not None, version_of(result) == version)"],
-               notes="assumed: importlib / getattr lookups raise only ModuleNotFoundError, ValueError (incl. FunctionNotFoundError) or AttributeError; a found function is a live memento function of that version")
+               notes="the lookup imports the module named in the stored string (user code: ImportError, SyntaxError, anything its top level raises, TypeError for a relative name) "
+                     "and walks attributes: it may raise ANY exception; a found function is a live memento function of that version")
     E = "external:"
     R.contract(E + "UnboundExternalMementoFunction.__init__", prop="C12", ghost_params=GP,
                inline_callees=["external:ExternalMementoFunctionBase.__init__"],
